@@ -101,6 +101,12 @@ def two_bloc_params(tier):
             r = dict(q)
             r["reverse_keys"] = True
             extra.append(r)
+    # the same parameters with the blocs listed in another order in cohesion_parameters / pref_intervals_by_bloc than in bloc_voter_prop
+    for k, q in enumerate(out):
+        if q["props"]["X"] not in (q["props"]["Y"],) and (tier != "quick" or k % 3 == 0):
+            r = dict(q)
+            r["reverse_bloc_dicts"] = True
+            extra.append(r)
     return out + extra
 
 
@@ -131,6 +137,9 @@ def build_generator(model, p, **extra):
 
     common = dict(pref_intervals_by_bloc=mk_intervals(p), bloc_voter_prop=dict(p["props"]),
                   cohesion_parameters={b: dict(r) for b, r in p["cohesion"].items()})
+    if p.get("reverse_bloc_dicts"):
+        common["cohesion_parameters"] = dict(reversed(list(common["cohesion_parameters"].items())))
+        common["pref_intervals_by_bloc"] = dict(reversed(list(common["pref_intervals_by_bloc"].items())))
     if model in ("name_PlackettLuce", "name_BradleyTerry", "name_BradleyTerry_MCMC"):
         cls = bg.name_PlackettLuce if model == "name_PlackettLuce" else bg.name_BradleyTerry
         return cls(candidates=all_cands(p), **common)
